@@ -2,11 +2,11 @@
 SPECIFICATION MCSpec
 CONSTANTS
   V4 = TRUE
-  Loops = {1}
+  Loops = {1, 2}
   ServerWideBuffer = FALSE
   StopOnParseError = FALSE
   ReuseReadBuffer = FALSE
-  MaxReads = 12
+  MaxReads = 8
   Ports = {68, 1068}
   EmitCases = TRUE
 INVARIANTS Emit
